@@ -62,6 +62,7 @@ def run(ctx, pid):
 def replay(ctx, obj):
     exe, msg = common.build_harness("c01_lanes", ["c01_lanes.c"], whitebox=False, extra=["-I" + common.VERIF + "/harness"])
     reproduced = False
+    unexec = False
     for f in obj.get("failures", []):
         print("recorded:", f.get("what"))
         if "scenario" in f and "seed" in f and "permille" in f:
@@ -71,10 +72,12 @@ def replay(ctx, obj):
                 reproduced = True
             print("  re-run:", "; ".join(again)[:600] or ("client died rc %s" % r.returncode if r.returncode not in (0, 1, 3) else "no failure this time"))
         else:
-            reproduced = True   # nothing to re-execute for this entry: keep the recorded verdict
+            unexec = True   # nothing to re-execute for this entry
     for b in obj.get("broken", []):
         print("no longer checks:", b)
-    return 1 if (reproduced or obj.get("broken") or not obj.get("failures")) else 0
+    if reproduced:
+        return 1
+    return 2 if (unexec or obj.get("broken") or not obj.get("failures")) else 0
 
 
 def merge(parts):
@@ -109,19 +112,21 @@ def run_part(label, fn, ctx):
 
 
 def replay_parts(ctx, obj, parts):
-    """parts = {label: replay function}; failures carry their part label (absent = lanes oracle)"""
-    rc = 0
-    ran = False
+    """parts = {label: replay function}; failures carry their part label (absent = lanes oracle).
+    rc: 1 if any re-executed entry reproduces, else 2 if something could not be executed (proof / tie entries: only a
+    full run of the check re-establishes those), else 0 (everything re-executed and nothing reproduces)"""
+    rcs = []
     for label, fn in parts.items():
         sub = {"failures": [f for f in obj.get("failures", []) if f.get("part", "lanes") == label],
-               "broken": [b for b in obj.get("broken", []) if isinstance(b, dict) and isinstance(b.get("detail"), dict) and b["detail"].get("part", "lanes") == label]}
+               "broken": [b for b in obj.get("broken", []) if isinstance(b, dict) and isinstance(b.get("detail"), dict) and b["detail"].get("part", "lanes") == label and b.get("what") == "correspondence"]}
         if sub["failures"] or sub["broken"]:
-            ran = True
             r = fn(ctx, sub)
-            rc = max(rc, r if isinstance(r, int) else 1)
-    rest = [b for b in obj.get("broken", []) if not (isinstance(b, dict) and isinstance(b.get("detail"), dict) and "part" in b["detail"])]
+            rcs.append(r if isinstance(r, int) else 2)
+    handled = set(parts)
+    rest = [b for b in obj.get("broken", []) if not (isinstance(b, dict) and isinstance(b.get("detail"), dict) and b.get("what") == "correspondence"
+                                                     and b["detail"].get("part", "lanes") in handled)]
     for b in rest:
-        print("no longer checks:", b)
-    if rest or not ran:
-        rc = max(rc, 1)     # ties that no longer check are re-established only by a full run of the check
-    return rc
+        print("no longer checks (only a full run of the check re-establishes it):", str(b)[:600])
+    if rest or not rcs:
+        rcs.append(2)
+    return 1 if 1 in rcs else (2 if 2 in rcs else 0)
